@@ -66,6 +66,17 @@ def model(sc):
         n += 1
 
 
+def final_marker(mode, n, last):
+    """FinalBlockId carried by segment n.  'every': the true last segment in every Data; 'last': only in the last one; 'estimate': a
+    producer that does not know the end yet announces a moving estimate (a later segment, never itself) until the real last segment,
+    which names itself - the segment "designated final" is the one that names itself."""
+    if mode == 'every' or n == last:
+        return SEG(last)
+    if mode == 'estimate':
+        return SEG(min(last, n + 2)) if n + 2 <= last else SEG(last)
+    return None
+
+
 def content(n):
     return b'' if n == 3 else b'seg-%d' % n
 
@@ -85,8 +96,8 @@ def execute(sc):
         nonces = set()
 
         def seg_data(n):
-            fb = SEG(last) if (sc['marker'] == 'every' or n == last) else None
-            return bytes(make_data(prefix + ver + [SEG(n)], MetaInfo(final_block_id=fb, freshness_period=10), content(n), DigestSha256Signer()))
+            fb = final_marker(sc['marker'], n, last)
+            return bytes(make_data(prefix + ver + [SEG(n)], MetaInfo(final_block_id=fb, freshness_period=sc.get('fresh', 10)), content(n), DigestSha256Signer()))
 
         def on_send(wire):
             try:
@@ -174,7 +185,7 @@ def execute(sc):
 def gen_script(rng):
     n = rng.choice([0, 1, 1, 2, 3, 4, 5, 8])
     retry = rng.choice([1, 2, 3])
-    sc = {'n': n, 'retry': retry, 'version': rng.random() < 0.5, 'marker': rng.choice(['every', 'last']),
+    sc = {'n': n, 'retry': retry, 'version': rng.random() < 0.5, 'marker': rng.choice(['every', 'last', 'estimate']), 'fresh': rng.choice([10, 10, 0, None]),
           'disc_answer': rng.randrange(n) if n else 0, 'loss': {}, 'fault': None,
           'name_form': rng.choice(['list', 'list', 'tuple', 'uri', 'encoded', 'generator', 'iterator', 'list-str'])}
     keys = ['disc'] + list(range(n))
@@ -216,6 +227,8 @@ def judge(ctx, sc, R, S):
     if got_att != exp_att:
         ctx.report('attempts-per-segment', f'Interests per request {got_att}, expected {exp_att}', w)
     ctx.event('outcome-' + str(R['outcome']))
+    ctx.event('marker-' + sc['marker'])
+    ctx.event('freshness-' + str(sc.get('fresh', 10)))
     ctx.event('name-form-' + sc.get('name_form', 'list'))
     if sc.get('name_form') in ('generator', 'iterator') and sc['loss'].get('disc'):
         ctx.event('one-shot-name-with-lost-discovery')
@@ -339,7 +352,7 @@ def execute_concurrent(sc):
         loop = asyncio.get_running_loop()
 
         def seg_data(k):
-            fb = SEG(last) if (sc['marker'] == 'every' or k == last) else None
+            fb = final_marker(sc['marker'], k, last)
             return bytes(make_data(prefix + ver + [SEG(k)], MetaInfo(final_block_id=fb, freshness_period=10), content(k), DigestSha256Signer()))
 
         def on_send(wire):
@@ -480,7 +493,7 @@ def run(ctx):
     for sc in templates + [gen_concurrent(rng) for _ in range(ctx.n(250, 80000))]:
         obs, S = execute_concurrent(sc)
         judge_concurrent(ctx, sc, obs, S)
-    for k in ('outcome-done', 'outcome-timeout', 'outcome-nack', 'outcome-valfail', 'concurrent-fetch', 'concurrent-outcome-done', 'concurrent-outcome-timeout',
+    for k in ('marker-estimate', 'freshness-None', 'freshness-0', 'outcome-done', 'outcome-timeout', 'outcome-nack', 'outcome-valfail', 'concurrent-fetch', 'concurrent-outcome-done', 'concurrent-outcome-timeout',
               'concurrent-data-shared-between-fetchers', 'one-shot-name-with-lost-discovery'):
         ctx.need_event(k)
     ctx.assumptions = ['an object without any final-block marker is outside the statement', 'the legacy front-end is the one segment_fetcher uses']
